@@ -164,4 +164,131 @@ Proof.
   intros _ Hne. unfold filter_var. simpl. destruct vals; [congruence|]. simpl. rewrite app_nil_r. reflexivity.
 Qed.
 
+(* ---- the chain of the model is the chain of the specification, converted ---- *)
+
+Lemma find_class_simple tbl c k :
+  simple_tbl tbl = true -> find_class tbl c = Some k ->
+  match k_base k with Some (_, args) => forallb simple_arg args = true | None => True end.
+Proof.
+  unfold simple_tbl. induction tbl as [|k0 tbl IH]; simpl; intros Hs Hf; [discriminate|].
+  apply andb_true_iff in Hs. destruct Hs as [Hk Hs].
+  destruct (k_id k0 =? c).
+  - inversion Hf; subst. revert Hk. destruct (k_base k) as [[b args]|]; auto.
+  - apply IH; auto.
+Qed.
+
+Lemma base_var_sim ps a :
+  simple_arg a = true -> base_var arity (inst_env arity ps) a = conv_var arity (base_ty ps a).
+Proof.
+  destruct a as [i|t| | |]; simpl; intros H; try discriminate.
+  - unfold inst_env, base_ty. simpl.
+    change (@nil aval) with (conv_var arity TNothing). apply map_nth.
+  - destruct t; try discriminate. reflexivity.
+Qed.
+
+Lemma base_env_sim ps args :
+  forallb simple_arg args = true ->
+  map (base_var arity (inst_env arity ps)) args = inst_env arity (map (base_ty ps) args).
+Proof.
+  induction args as [|a args IH]; simpl; intros H; auto.
+  apply andb_true_iff in H. destruct H as [Ha H]. rewrite base_var_sim by exact Ha. rewrite IH by exact H.
+  reflexivity.
+Qed.
+
+Definition conv_link (kp : cdecl * list ty) : cdecl * list (list aval) := (fst kp, inst_env arity (snd kp)).
+
+Lemma chain_sim tbl : simple_tbl tbl = true -> forall fuel c ps,
+  chain arity fuel tbl c (inst_env arity ps) = map conv_link (tchain fuel tbl c ps).
+Proof.
+  intros Hs. induction fuel as [|fuel IH]; intros c ps; simpl; auto.
+  destruct (find_class tbl c) as [k|] eqn:Hf; auto.
+  pose proof (find_class_simple tbl c k Hs Hf) as Hb.
+  simpl. unfold conv_link at 1. simpl. f_equal.
+  destruct (k_base k) as [[b args]|]; auto.
+  rewrite base_env_sim by exact Hb. apply IH.
+Qed.
+
+Lemma find_preload_sim name tch :
+  find_preload name (map conv_link tch) =
+  match tfind_preload name tch with
+  | Some (kps, d) => match find_preload name (map conv_link tch) with
+                     | Some (k, _, _) => Some (k, inst_env arity kps, d) | None => None end
+  | None => None
+  end /\
+  (forall kps d, tfind_preload name tch = Some (kps, d) -> exists k, find_preload name (map conv_link tch) = Some (k, inst_env arity kps, d)).
+Proof.
+  induction tch as [|[k ps] tch [IH1 IH2]]; simpl.
+  - split; [reflexivity|]. intros; discriminate.
+  - destruct (lookup name (k_members k)) as [[d|mk sigs]|].
+    + destruct (mentions_param d).
+      * split; [reflexivity|]. intros kps d0 H. inversion H; subst. eexists; reflexivity.
+      * split; [exact IH1|exact IH2].
+    + split; [exact IH1|exact IH2].
+    + split; [exact IH1|exact IH2].
+Qed.
+
+(* ---- no TypeVar instance comes out of the conversion of a ground type ---- *)
+
+Lemma conv_cls_not_tpi : forall t, is_tpi (conv_cls t) = false.
+Proof.
+  apply (ty_ind' (fun t => is_tpi (conv_cls t) = false)); simpl; auto.
+  intros ts H. destruct ts as [|t1 [|t2 ts']]; simpl; auto. inversion H; auto.
+Qed.
+
+Lemma inst_not_tpi t : is_tpi (inst arity t) = false.
+Proof.
+  destruct t; simpl; auto.
+  - unfold bare_inst. destruct (c =? type_id); [destruct (arity c) as [|[|n]]; reflexivity|].
+    destruct ((c =? none_id) && (arity c =? 0)%nat); reflexivity.
+  - destruct (c =? type_id).
+    + destruct ps as [|u [|u' ps']]; simpl; auto. apply conv_cls_not_tpi.
+    + destruct (length ps <=? arity c)%nat; reflexivity.
+  - destruct ts as [|t1 [|t2 ts']]; simpl; auto. apply conv_cls_not_tpi.
+Qed.
+
+Lemma conv_var_not_tpi t : existsb is_tpi (conv_var arity t) = false.
+Proof.
+  destruct t as [| |c|c ps|ps|a r|ts|];
+    try (unfold conv_var; cbn [var_of existsb]; rewrite ?inst_not_tpi; reflexivity).
+  unfold conv_var. cbn [var_of].
+  induction ts as [|m ts IH]; [reflexivity|].
+  cbn [flat_map]. rewrite existsb_app, IH, orb_false_r.
+  destruct m; cbn [existsb]; rewrite ?inst_not_tpi; reflexivity.
+Qed.
+
+Lemma conv_var_nonempty t : wf_top arity t = true -> conv_var arity t <> [].
+Proof.
+  unfold wf_top. intros H. apply andb_true_iff in H. destruct H as [Hwf Hn]. apply negb_true_iff in Hn.
+  destruct (member_ok t) eqn:Hm.
+  - rewrite (conv_var_single arity t Hm). intros E; discriminate E.
+  - destruct t; simpl in Hm, Hn; try discriminate; try (simpl in Hwf; discriminate).
+    destruct (wf_union_inv arity _ Hwf) as (Hl & _ & Hms & _).
+    rewrite (conv_var_union arity ts) by exact Hms.
+    destruct ts; simpl in *; [lia|intros E; discriminate E].
+Qed.
+
+(* x: T read at the top of an attribute, AFTER the fix (resolution by full name): the instance's value for the
+   declaring class's own parameter, i.e. the declared type under the substitution along the chain *)
+Lemma attr_typevar_read_fixed_lemma fuel tbl c ps name kps i :
+  simple_tbl tbl = true ->
+  tfind_preload name (tchain fuel tbl c ps) = Some (kps, DParam i) ->
+  wf_top arity (subst_ty kps (DParam i)) = true ->
+  snd (read_emitted arity true fuel tbl c ps name) = true /\
+  nf (def_ty (fst (read_emitted arity true fuel tbl c ps name))) = nf (subst_ty kps (DParam i)).
+Proof.
+  intros Hs Hpre Hwf. simpl in Hwf |- *.
+  unfold read_emitted, attr_read. rewrite (chain_sim tbl Hs).
+  destruct (proj2 (find_preload_sim name (tchain fuel tbl c ps)) kps (DParam i) Hpre) as [k ->].
+  unfold top_env, dvar_attr, dvar_gen, tpi.
+  assert (i < length kps)%nat as Hlt.
+  { destruct (Nat.ltb i (length kps)) eqn:E; [apply Nat.ltb_lt; exact E|].
+    apply Nat.ltb_ge in E. rewrite nth_overflow in Hwf by exact E. discriminate. }
+  rewrite (nth_indep _ [] ((fun vals => [VTParamInst vals]) [])) by (unfold inst_env; rewrite !map_length; exact Hlt).
+  rewrite (map_nth (fun vals => [VTParamInst vals])).
+  assert (nth i (inst_env arity kps) [] = conv_var arity (nth i kps TNothing)) as ->
+    by exact (map_nth (conv_var arity) kps TNothing i).
+  rewrite (filter_var_tpi_single _ (conv_var_not_tpi _) (conv_var_nonempty _ Hwf)).
+  exact (emitted_ground _ Hwf).
+Qed.
+
 End Classes.
